@@ -19,6 +19,8 @@ LEVEL = 'fault_enumeration'
 BUDGET = {'quick': 60, 'thorough': 600}
 # deterministic sub-checks repeated in a `python -O` child (core.optimized_child)
 OPT_SUBS = ('single#9',)
+# documented call interface the generated calls rely on (vcheck/callstyle.py)
+INTERFACE = [('oslo_utils.imageutils.format_inspector', None)]
 RULE = ('sources: valid images, crafted contents that make real parsers '
         'raise (VMDK bad version / descriptor location, VHDX bad region '
         'signature), zeros, random, as BytesIO with read-size sequences and '
@@ -103,9 +105,27 @@ class _CountingIter:
         self.closed = True
 
 
+class _MutableReads:
+    def __init__(self, inner):
+        self._inner = inner
+
+    def read(self, size=-1):
+        return bytearray(self._inner.read(size))
+
+    def tell(self):
+        return self._inner.tell()
+
+    def close(self):
+        self._inner.close()
+
+    @property
+    def closed(self):
+        return self._inner.closed
+
+
 def run_case(col, case, sub):
     """case: content, schedule, mode, plan {name: [k, kind]}, expected,
-    allowed."""
+    allowed, ckind."""
     from vcheck import imgstrat
     F = imgdrive.fi()
     data, _img = imgstrat.realize(case['content'])
@@ -197,13 +217,20 @@ def run_case(col, case, sub):
     if case.get('loglevel'):
         lg.setLevel(getattr(logging, case['loglevel']))
     try:
+        # ckind 'bytearray': the source hands out mutable chunks and the
+        # reader keeps the objects it was given (collect, then join): no
+        # inspector may alter them afterwards
+        mutable = case.get('ckind') == 'bytearray'
         if mode == 'read':
             src = io.BytesIO(data)
         elif mode == 'short':
             src = imgdrive.ShortReadSource(
                 data, chunking.sizes_of(case['schedule'], len(data)))
         else:
-            src = _CountingIter(chunks)
+            src = _CountingIter([bytearray(c) for c in chunks]
+                                if mutable else chunks)
+        if mutable and mode != 'iter':
+            src = _MutableReads(src)
         w = F.InspectWrapper(src, expected_format=expected,
                              allowed_formats=allowed)
         got = []
@@ -326,8 +353,10 @@ def run_case(col, case, sub):
                   (expected in plan) or bool(real_err))
     col.case(sub, (core.h64(data), case['schedule'], mode,
                    tuple(sorted(plan.items())), expected,
-                   tuple(allowed) if allowed else None), nontrivial,
+                   tuple(allowed) if allowed else None, case.get('ckind')),
+             nontrivial,
              ['mode=' + mode, 'faults=%d' % min(len(plan), 3),
+              'chunks=' + (case.get('ckind') or 'bytes'),
               'loglevel=' + str(case.get('loglevel')),
               'expected=' + ('none' if not expected else 'set'),
               'abort=' + (abort[1] if abort else 'none'),
@@ -388,6 +417,9 @@ def single_faults(col, source_idx, mode):
         run_case(col, {'content': content, 'schedule': sched, 'mode': mode,
                        'plan': {}, 'expected': expected, 'allowed': None,
                        'loglevel': lvl}, sub)
+        run_case(col, {'content': content, 'schedule': sched, 'mode': mode,
+                       'plan': {}, 'expected': expected, 'allowed': None,
+                       'loglevel': lvl, 'ckind': 'bytearray'}, sub)
         for name in NAMES:
             for k in range(nchunks):
                 for kind in kinds:
@@ -433,6 +465,8 @@ def sampled(col, seed, max_examples, fmts):
         return {'content': content, 'schedule': sched,
                 'mode': draw(st.sampled_from(['read', 'iter', 'short'])),
                 'loglevel': draw(st.sampled_from([None, 'DEBUG'])),
+                'ckind': draw(st.sampled_from(['bytes', 'bytes',
+                                               'bytearray'])),
                 'plan': plan, 'expected': expected, 'allowed': allowed}
     core.run_given(col, cases(), lambda c, case: run_case(c, case, sub),
                    seed, max_examples)
